@@ -691,6 +691,7 @@ func (x *fnExec) havocAll(st *State) {
 	oldAlloc := st.heapGet(v, "$alloc", sInt)
 	v.counter++
 	st.epoch = v.counter
+	st.unknownHavoc = true
 	st.heap = map[string]string{}
 	n := st.heapHavoc(v, "$alloc", sInt)
 	st.assume("(>= " + n + " " + oldAlloc + ")")
@@ -925,6 +926,9 @@ func (x *fnExec) callModifies(call *ssa.CallCommon, isGo bool) ([]string, bool) 
 func (x *fnExec) modTargetHeaps(m string, c *FuncContract) ([]string, bool) {
 	v := x.v
 	m = strings.TrimSpace(m)
+	if m == "fresh" {
+		return nil, true
+	}
 	if strings.HasPrefix(m, "new(") && strings.HasSuffix(m, ")") {
 		m = strings.TrimSpace(m[4 : len(m)-1])
 	}
